@@ -51,8 +51,23 @@ func (curve koblitzCurve) IsOnCurve(x, y *big.Int) bool {
 	return x3.Cmp(y2) == 0
 }
 
+// zForAffine returns a Jacobian Z value for the affine point (x, y). If x and
+// y are zero, it assumes that they represent the point at infinity because (0,
+// 0) is not on the any of the curves handled here.
+func zForAffine(x, y *big.Int) *big.Int {
+	z := new(big.Int)
+	if x.Sign() != 0 || y.Sign() != 0 {
+		z.SetInt64(1)
+	}
+	return z
+}
+
 // affineFromJacobian reverses the Jacobian transform.
 func (curve koblitzCurve) affineFromJacobian(x, y, z *big.Int) (xOut, yOut *big.Int) {
+	if z.Sign() == 0 {
+		return new(big.Int), new(big.Int)
+	}
+
 	zinv := new(big.Int).ModInverse(z, curve.P)
 	zinvsq := new(big.Int).Mul(zinv, zinv)
 
@@ -66,13 +81,21 @@ func (curve koblitzCurve) affineFromJacobian(x, y, z *big.Int) (xOut, yOut *big.
 }
 
 func (curve koblitzCurve) Add(x1, y1, x2, y2 *big.Int) (*big.Int, *big.Int) {
-	z := new(big.Int).SetInt64(1)
-	return curve.affineFromJacobian(curve.addJacobian(x1, y1, z, x2, y2, z))
+	z1 := zForAffine(x1, y1)
+	z2 := zForAffine(x2, y2)
+	return curve.affineFromJacobian(curve.addJacobian(x1, y1, z1, x2, y2, z2))
 }
 
 // addJacobian takes two points in Jacobian coordinates, (x1, y1, z1) and
 // (x2, y2, z2) and returns their sum, also in Jacobian form.
 func (curve koblitzCurve) addJacobian(x1, y1, z1, x2, y2, z2 *big.Int) (*big.Int, *big.Int, *big.Int) {
+	if z1.Sign() == 0 {
+		return new(big.Int).Set(x2), new(big.Int).Set(y2), new(big.Int).Set(z2)
+	}
+	if z2.Sign() == 0 {
+		return new(big.Int).Set(x1), new(big.Int).Set(y1), new(big.Int).Set(z1)
+	}
+
 	// See http://hyperelliptic.org/EFD/g1p/auto-shortw-jacobian-0.html#addition-add-2007-bl
 	z1z1 := new(big.Int).Mul(z1, z1)
 	z1z1.Mod(z1z1, curve.P)
@@ -100,6 +123,9 @@ func (curve koblitzCurve) addJacobian(x1, y1, z1, x2, y2, z2 *big.Int) (*big.Int
 	r := new(big.Int).Sub(s2, s1)
 	if r.Sign() == -1 {
 		r.Add(r, curve.P)
+	}
+	if h.Sign() == 0 && r.Sign() == 0 {
+		return curve.doubleJacobian(x1, y1, z1)
 	}
 	r.Lsh(r, 1)
 	v := new(big.Int).Mul(u1, i)
@@ -136,7 +162,7 @@ func (curve koblitzCurve) addJacobian(x1, y1, z1, x2, y2, z2 *big.Int) (*big.Int
 }
 
 func (curve koblitzCurve) Double(x1, y1 *big.Int) (*big.Int, *big.Int) {
-	z1 := new(big.Int).SetInt64(1)
+	z1 := zForAffine(x1, y1)
 	return curve.affineFromJacobian(curve.doubleJacobian(x1, y1, z1))
 }
 
@@ -183,7 +209,7 @@ func (curve koblitzCurve) ScalarMult(Bx, By *big.Int, k []byte) (*big.Int, *big.
 	// |k|, then we return nil, nil, because we cannot return the identity
 	// element.
 
-	Bz := new(big.Int).SetInt64(1)
+	Bz := zForAffine(Bx, By)
 	x := Bx
 	y := By
 	z := Bz
@@ -206,7 +232,7 @@ func (curve koblitzCurve) ScalarMult(Bx, By *big.Int, k []byte) (*big.Int, *big.
 	}
 
 	if !seenFirstTrue {
-		return nil, nil
+		return new(big.Int), new(big.Int)
 	}
 
 	return curve.affineFromJacobian(x, y, z)
